@@ -54,12 +54,20 @@ impl FilterCase {
 }
 
 pub fn html_filter(action: &str, path: &[&str], selector: Option<&str>, value: &str) -> Value {
-    json!({
+    let mut f = json!({
         "action": action,
         "value": value,
         "element_tree": path,
         "css_selector": selector,
-    })
+    });
+    // `inner_value` exists for the unit trace only: whatever it holds (absent, empty, another text) must never
+    // reach the body; a third of the filters each way, decided by the filter itself (deterministic)
+    match (value.len() + path.len() + action.len() + selector.map(|s| s.len()).unwrap_or(0)) % 3 {
+        0 => f["inner_value"] = json!("INNER-VALUE-IS-FOR-THE-TRACE-ONLY"),
+        1 => f["inner_value"] = json!(""),
+        _ => {}
+    }
+    f
 }
 
 pub fn text_filter(action: &str, content: &str) -> Value {
